@@ -235,8 +235,13 @@ def run(cx):
         sts = _I.stores(fn, cx.F, 'a', through_deref=True) + _I.stores(fn, cx.F, 'a')
         cx.add('I-CTR', 'block_add_one/walk', len(sts) == 1 and sts[0][0] in IDX, 'the increment walks all 16 bytes from index 15 down to 0 (stores: %s)' % [x[0] for x in sts][:4], fn.loc())
         idx = sts[0][0] if len(sts) == 1 else IDX[0]
-        BYTE = '$a[%s]' % idx
+        # each byte is read in the version left by the earlier visits (which wrote other indices) or as passed in
+        # (a byte reached through the slice iterator's element reference carries no version: it is written through the
+        # same reference it was read from)
         val = sts[0][1] if len(sts) == 1 else ''
+        BYTE = '$a[%s]#{E|[%s]}' % (idx, idx)
+        if BYTE not in val and idx == IDX[1]:
+            BYTE = '$a[%s]' % idx
         import re as _re
         m_o = _re.match(r'^overflowing_add\(%s, (.*)\)\.0$' % _re.escape(BYTE), val)
         m_w = _re.match(r'^wrapping_add\(%s, 1\)$' % _re.escape(BYTE), val)
